@@ -184,6 +184,12 @@ func (r *Report) Finish() int {
 		knownN += n
 	}
 	cov["known_finding_occurrences"] = knownN
+	if r.Assumptions == nil {
+		r.Assumptions = []string{"the enumerated input domain is the one stated in coverage.rule; the daemon under test is the real code built from the current tree"}
+	}
+	if r.Notes == nil {
+		r.Notes = []string{}
+	}
 	ev := map[string]interface{}{
 		"property_id": r.Property,
 		"tier":        r.Tier,
